@@ -5,9 +5,6 @@ Clauses (one stable key each):
   bounded:C06:filter!=reference                    apply_acl(t, compile(A)) == ref_filter(t, A)   (rows and order)
   bounded:C06:global-rule-does-not-cover-subtree   the same comparison, when the ONLY difference is that annet drops rows
                                                    lying below a row matched by a %global rule whose pattern is not `~`
-  bounded:C06:same-pattern-children-of-two-matching-rules
-                                                   the same comparison, when a row is matched by two rules whose children contain
-                                                   one pattern with different %prio/%global (how these are united is undescribed)
   bounded:C06:not-ordered-subtree                  the result is an order-preserving sub-tree of t
   bounded:C06:not-idempotent                       filtering the result again changes nothing
   bounded:C06:merge-not-monotone[:prio|:global]    apply(t,A) U apply(t,B) is a sub-tree of apply(t, A+B), A+B built by the
@@ -16,10 +13,8 @@ Clauses (one stable key each):
                                                    non-`~` %global rule of A+B matches (consequence of the finding above)
   bounded:C06:strict-mode                          fatal_acl=True raises AclError iff some row at a covered parent is
                                                    uncovered, and the message names such a row
-  bounded:C06:strict-mode:cant_delete-reverse-row-dropped-silently
-                                                   the reverse form (`undo X`) of a %cant_delete rule is matched by the rule
-                                                   but not passed: the reference filter drops it too (acl.rst: "delete commands
-                                                   should not be generated"), but strict mode then drops a line without naming it
+  A row that is the reverse form (`undo X`) of an undeletable (%cant_delete) rule is covered (matched) but deliberately
+  not passed: the reference drops it and requires no AclError for it in strict mode.
 """
 import itertools
 import random
@@ -210,11 +205,20 @@ def _missing(exp, got):
     return [p for p in pe if p not in pg], [p for p in paths(got) if p not in set(pe)]
 
 
+def _ref(tree, acl, vendor):
+    """reference verdict; how the children of two different matching rules that contain the same pattern with different
+    %prio/%global are united is not fixed by the statement: such cases count as ambiguous"""
+    r = ref_acl.ref_eval(tree, acl, vendor)
+    if r.clash:
+        r.ambiguous = True
+    return r
+
+
 def check_filter(vendor, acl, tree):
     """-> list of (key, text, expected, actual), info"""
     _, patching, _ = _annet()
     fails = []
-    ref = ref_acl.ref_eval(tree, acl, vendor)
+    ref = _ref(tree, acl, vendor)
     try:
         got = real_filter(tree, acl, vendor)
     except Exception as e:  # noqa
@@ -231,11 +235,6 @@ def check_filter(vendor, acl, tree):
             if not extra and miss and all(p in ref.only_subtree for p in minimal):
                 fails.append((K + "global-rule-does-not-cover-subtree",
                               "a %global rule whose pattern is not `~` keeps the row it matches but not the rows below it",
-                              ordered(ref.tree), ordered(got)))
-            elif ref.clash:
-                fails.append((K + "same-pattern-children-of-two-matching-rules",
-                              "a row matched by two rules whose children contain the same pattern with different %prio/%global: "
-                              "annet unites the two by merge_dicts (last %prio wins), the reference keeps both rules",
                               ordered(ref.tree), ordered(got)))
             else:
                 fails.append((K + "filter!=reference", "apply_acl differs from the reference filter", ordered(ref.tree), ordered(got)))
@@ -268,12 +267,6 @@ def check_filter(vendor, acl, tree):
                 fails.append((K + "strict-mode", "AclError although every row at a covered parent is covered", "no error", act))
             elif ordered(strict) != ordered(got):
                 fails.append((K + "strict-mode", "strict mode changes the result of a fully covered tree", ordered(got), ordered(strict)))
-            elif ref.suppressed:
-                # the reverse form of a cant_delete rule: matched, so no AclError, but not passed either -- by the letter of
-                # the statement a line that is not in the result is uncovered and strict mode must name it
-                fails.append((K + "strict-mode:cant_delete-reverse-row-dropped-silently",
-                              "a row that is the reverse form of a %cant_delete rule is dropped in strict mode without AclError",
-                              "AclError naming one of %r (or the row kept)" % [" / ".join(p) for p in ref.suppressed], dict(no_error=True, result=ordered(strict))))
     return fails, ref, got
 
 
@@ -294,13 +287,13 @@ def check_merge(vendor, a, b, tree, ga=None, ra=None):
     except Exception as e:  # noqa
         return [(K + "filter-raises", "merge: %s" % type(e).__name__, None, repr(e))]
     if ra is None:
-        ra = ref_acl.ref_eval(tree, a, vendor)
+        ra = _ref(tree, a, vendor)
     if ra.ambiguous:
         return fails
-    rb = ref_acl.ref_eval(tree, b, vendor)
+    rb = _ref(tree, b, vendor)
     if rb.ambiguous:
         return fails
-    rab = ref_acl.ref_eval(tree, ab, vendor)
+    rab = _ref(tree, ab, vendor)
     if rab.ambiguous:
         return fails
     un = tree_union(ga, gb)
@@ -380,7 +373,7 @@ def run(tier="quick", seed=0, part=0, nparts=1):
              "level, depth <= 3, rows %r / %r / %r, NEG = undo (huawei) or no (cisco, thorough only)); merge partners: 2 other "
              "ACLs per ACL, merged by the real RunGeneratorResult.acl_text(). The governing rule among equal-%%prio candidates "
              "is an implementation detail: cases where the equal-prio candidates disagree (reverse+cant_delete vs not, "
-             "reverse vs direct rule with children) are counted in `ambiguous` and only checked for sub-tree/idempotence. "
+             "reverse vs direct rule with children; children of two matching rules holding one pattern with different params) are counted in `ambiguous` and only checked for sub-tree/idempotence. "
              "Non-trivial = the reference keeps some but not all rows, or suppresses a reverse-form row of a cant_delete rule; "
              "distinct by (vendor, ACL text, tree)" % (L1P, L2P, L3P, R1, R2, R3),
         bound="exhaustive ACLs <= 2 lines x %d trees, %d random ACLs x %d trees, depth <= 3" % (len(trees_ex), len(ra), len(trees_ra)))
